@@ -179,7 +179,8 @@ def setup(ctx, mods):
                 ctx.violation('corners', 'corners:one-per-cluster', f'{int(keep)} is not a member of cluster {m.tolist()}')
                 continue
             sc = np.asarray(tri(pts, m), dtype=float)
-            indep = np.array([0.5 * ((pts[k][0] - pts[k - 1][0]) * (pts[k][1] - pts[k + 1][1])) for k in m.tolist()], dtype=float)
+            pf = np.asarray(pts, dtype=float)      # the definition over the reals: never in a wrapping integer dtype
+            indep = np.array([0.5 * ((pf[k][0] - pf[k - 1][0]) * (pf[k][1] - pf[k + 1][1])) for k in m.tolist()], dtype=float)
             ctx.check(np.array_equal(sc, indep), 'corners', 'corners:triangle-score',
                       f'rank_corners_triangle {sc.tolist()} != 0.5*(x_k-x_k-1)*(y_k-y_k+1) {indep.tolist()}')
             p = int(np.where(m == int(keep))[0][0])
@@ -208,16 +209,24 @@ def cases(rng, tier, shard, nshards):
             pts, meta = gen.curve(rng, nmax=60, nmin=6, family=pick(rng, fams))
         if len(pts) < 6:
             pts, meta = gen.curve(rng, nmax=60, nmin=6, family='mrc')
+        lay = None
+        if rng.random() < 0.04:
+            # integral coordinates of magnitude 1e9..1e10 as int64 (products of two coordinate differences do not fit int64)
+            pts, meta, lay = gen.large_int_curve(rng, nmax=40, n=None), {'family': 'large-int64'}, 'i64'
+            if len(pts) < 6:
+                pts = gen.large_int_curve(rng, n=12)
         n = len(pts)
         knees = gen.knee_subset(rng, n, kmin=2, kmax=12)
         if rng.random() < 0.4 and n > 12:     # tight groups so that multi-member clusters are common
             start = int(rng.integers(1, n - 8))
             knees = np.unique(np.concatenate((knees, np.arange(start, min(start + int(rng.integers(2, 6)), n - 1)))))
-        c = {'points': pts, 'family': meta['family'], 'layout': gen.pick_layout(rng, pts), 'knees': knees.astype(int),
+        c = {'points': pts, 'family': meta['family'], 'layout': lay or gen.pick_layout(rng, pts), 'knees': knees.astype(int),
              'linkage': pick(rng, LINKAGES),
              't': float(10.0 ** rng.uniform(-2.5, 0)) if rng.random() < 0.92 else float(pick(rng, [1.0, 0.5, 0.25, 1.5, 2.0])),
              'mode': pick(rng, MODES + ['corners'])}
-        if rng.random() < 0.3:      # history: another ranking mode / linkage / knee subset on the SAME array
+        if lay == 'i64' and c['mode'] == 'hull':
+            c['mode'] = 'linear'      # the hull predicate wraps in int64 at this magnitude: known finding F-2 (C20)
+        if lay is None and rng.random() < 0.3:      # history: another ranking mode / linkage / knee subset on the SAME array
             k2 = knees if rng.random() < 0.5 else gen.knee_subset(rng, n, kmin=2, kmax=12)
             c['follow'] = {'knees': np.asarray(k2).astype(int), 'linkage': pick(rng, LINKAGES),
                            't': float(10.0 ** rng.uniform(-2.5, 0)), 'mode': pick(rng, MODES + ['corners'])}
